@@ -335,9 +335,13 @@ def rule_d(ctx):
 
 
 def rule_e(ctx):
-    """Resolved at least once when the application closes the client (shared C11.h)."""
-    from .c11 import rule_h
+    """Resolved at least once when the application closes the client or the connection ends (shared C11.h, C11.b), and
+    the library's own futures (sent-futures of queued frames) obey the same at-most-once guard (C09.e): an
+    InvalidStateError there aborts the close sequence before the pending requests are failed."""
+    from .c11 import rule_h, rule_b2
     rule_h(ctx)
+    rule_b2(ctx)
+    check_guarded_resolve(ctx, 'C09.e', only_module={'rsocket.rsocket_base'})
 
 
-RULES = [('C07.a', rule_a), ('C07.b', rule_b), ('C07.c', rule_c), ('C07.d', rule_d), ('C11.h', rule_e)]
+RULES = [('C07.a', rule_a), ('C07.b', rule_b), ('C07.c', rule_c), ('C07.d', rule_d), ('C11.h+C11.b+C09.e', rule_e)]
